@@ -26,6 +26,8 @@ import (
 )
 
 type Clause struct {
+	Using []string // when set, the obligation is proved from these named facts only (sliced context)
+	Label string
 	Text  string
 	E     *Expr
 	Props []string // extra property tags
@@ -58,10 +60,25 @@ type Contract struct {
 		E    *Expr
 	}
 	Ghost   []string
+	Ats     []*AtStmt
 	Options map[string]string
 	File    string
 	Line    int
 	Pure    bool
+}
+
+// AtStmt is a ghost statement attached to a program point:
+//   at call NAME K: assert E        after the K-th call of NAME (source order) in the function
+//   at store K: assert E            after the K-th store instruction
+//   at call NAME K: ghost x := E    bind a ghost name to the value of E at that point
+type AtStmt struct {
+	PointKind string // call, store
+	Callee    string
+	Ordinal   int
+	Kind      string // assert, ghost
+	Name      string
+	C         *Clause
+	Used      bool
 }
 
 type ContractSet struct {
@@ -159,6 +176,12 @@ func (cs *ContractSet) ParseFile(path string, pkgPath string) {
 				c.Props = strings.Split(text[1:i], ",")
 				text = strings.TrimSpace(text[i+1:])
 			}
+			if i := strings.LastIndex(text, " using "); i >= 0 {
+				for _, u := range strings.Split(text[i+7:], ",") {
+					c.Using = append(c.Using, strings.TrimSpace(u))
+				}
+				text = strings.TrimSpace(text[:i])
+			}
 			c.Text = text
 			e, err := ParseExpr(text)
 			if err != nil {
@@ -248,6 +271,74 @@ func (cs *ContractSet) ParseFile(path string, pkgPath string) {
 			}{strings.TrimSpace(kv[0]), e})
 		case "ghost":
 			cur.Ghost = append(cur.Ghost, rest)
+		case "at":
+			i := strings.Index(rest, ":")
+			if i < 0 {
+				fail("at needs 'point: statement'")
+				continue
+			}
+			pt := strings.Fields(rest[:i])
+			stmt := strings.TrimSpace(rest[i+1:])
+			as := &AtStmt{}
+			switch {
+			case len(pt) == 3 && pt[0] == "call":
+				as.PointKind, as.Callee = "call", pt[1]
+				as.Ordinal, _ = strconv.Atoi(pt[2])
+			case len(pt) == 2 && pt[0] == "store":
+				as.PointKind = "store"
+				as.Ordinal, _ = strconv.Atoi(pt[1])
+			case len(pt) == 2 && pt[0] == "return":
+				as.PointKind = "return"
+				if pt[1] == "*" {
+					as.Ordinal = -1
+				} else {
+					as.Ordinal, _ = strconv.Atoi(pt[1])
+				}
+			default:
+				fail("bad program point %q", rest[:i])
+				continue
+			}
+			if strings.HasPrefix(stmt, "assert") && (strings.HasPrefix(stmt, "assert ") || strings.HasPrefix(stmt, "assert@")) {
+				as.Kind = "assert"
+				body := strings.TrimPrefix(stmt, "assert")
+				label := ""
+				if strings.HasPrefix(body, "@") {
+					j := strings.IndexAny(body, " \t")
+					if j < 0 {
+						fail("assert@label needs an expression")
+						continue
+					}
+					label = body[1:j]
+					body = body[j:]
+				}
+				as.C = mkClause(strings.TrimSpace(body))
+				if as.C != nil {
+					as.C.Label = label
+				}
+			} else if strings.HasPrefix(stmt, "mark ") {
+				as.Kind = "mark"
+				as.Name = strings.TrimSpace(strings.TrimPrefix(stmt, "mark "))
+				as.C = &Clause{Text: stmt, File: path, Line: pendingLine}
+			} else if strings.HasPrefix(stmt, "ghost ") {
+				kv := strings.SplitN(strings.TrimPrefix(stmt, "ghost "), ":=", 2)
+				if len(kv) != 2 {
+					fail("ghost binding needs name := expr")
+					continue
+				}
+				as.Kind = "ghost"
+				as.Name = strings.TrimSpace(kv[0])
+				as.C = mkClause(strings.TrimSpace(kv[1]))
+			} else {
+				fail("unknown ghost statement %q", stmt)
+				continue
+			}
+			if as.C != nil {
+				as.C.Name = fmt.Sprintf("assert%d", len(cur.Ats))
+				if as.C.Label != "" {
+					as.C.Name = "assert." + as.C.Label
+				}
+				cur.Ats = append(cur.Ats, as)
+			}
 		case "loop":
 			parts := strings.SplitN(rest, " ", 3)
 			if len(parts) < 2 {
